@@ -83,11 +83,13 @@ func (s *vStore) ReadFile(name string) ([]byte, error) {
 	}
 	return nil, fs.ErrNotExist
 }
-func (s *vStore) Create(name string) (*os.File, error)                               { return nil, fs.ErrPermission }
-func (s *vStore) Mkdir(name string, perm os.FileMode) error                          { return nil }
-func (s *vStore) OpenFile(name string, flag int, perm fs.FileMode) (*os.File, error) { return nil, fs.ErrPermission }
-func (s *vStore) Remove(name string) error                                           { return nil }
-func (s *vStore) RemoveAll(path string) error                                        { return nil }
+func (s *vStore) Create(name string) (*os.File, error)      { return nil, fs.ErrPermission }
+func (s *vStore) Mkdir(name string, perm os.FileMode) error { return nil }
+func (s *vStore) OpenFile(name string, flag int, perm fs.FileMode) (*os.File, error) {
+	return nil, fs.ErrPermission
+}
+func (s *vStore) Remove(name string) error    { return nil }
+func (s *vStore) RemoveAll(path string) error { return nil }
 func (s *vStore) Rename(oldpath string, newpath string) error {
 	s.renames = append(s.renames, oldpath+" -> "+newpath)
 	return nil
@@ -100,4 +102,3 @@ func vStub_hotline_NewTime(t time.Time) (b Time) {
 	copy(b[:], vBytesN("hltime", 8))
 	return b
 }
-
